@@ -739,13 +739,15 @@ class Pervaporation:
         if initial_permeances is None:
             first_component_permeance = Permeance(
                 value=pervaporation_function_first(
-                    initial_feed_composition.first, feed_temperature
+                    initial_feed_composition.to_weight(self.mixture).first,
+                    feed_temperature,
                 )
             )
 
             second_component_permeance = Permeance(
                 value=pervaporation_function_second(
-                    initial_feed_composition.first, feed_temperature
+                    initial_feed_composition.to_weight(self.mixture).first,
+                    feed_temperature,
                 )
             )
 
@@ -763,13 +765,15 @@ class Pervaporation:
         facilitation_rate_first = (
             first_component_permeance.value
             / pervaporation_function_first(
-                x=initial_feed_composition.first, t=feed_temperature
+                x=initial_feed_composition.to_weight(self.mixture).first,
+                t=feed_temperature,
             )
         )
         facilitation_rate_second = (
             second_component_permeance.value
             / pervaporation_function_second(
-                x=initial_feed_composition.first, t=feed_temperature
+                x=initial_feed_composition.to_weight(self.mixture).first,
+                t=feed_temperature,
             )
         )
 
@@ -1009,14 +1013,14 @@ class Pervaporation:
         facilitation_rate_first = (
             first_component_permeance.value
             / pervaporation_function_first(
-                x=conditions.initial_feed_composition.first,
+                x=feed_composition[0].first,
                 t=conditions.initial_feed_temperature,
             )
         )
         facilitation_rate_second = (
             second_component_permeance.value
             / pervaporation_function_second(
-                x=conditions.initial_feed_composition.first,
+                x=feed_composition[0].first,
                 t=conditions.initial_feed_temperature,
             )
         )
@@ -1323,14 +1327,14 @@ class Pervaporation:
         facilitation_rate_first = (
             first_component_permeance.value
             / pervaporation_function_first(
-                x=conditions.initial_feed_composition.first,
+                x=feed_composition[0].first,
                 t=conditions.initial_feed_temperature,
             )
         )
         facilitation_rate_second = (
             second_component_permeance.value
             / pervaporation_function_second(
-                x=conditions.initial_feed_composition.first,
+                x=feed_composition[0].first,
                 t=conditions.initial_feed_temperature,
             )
         )
